@@ -105,7 +105,7 @@ def run(ctx):
     ctx.encode_file(PYX, "_sht.pyx: amm/alm/blm, AssocLegendre, analysis/synthesis kernels, expand_coeffs_cython")
     thorough = ctx.tier == "thorough"
     ctx.bound("(a) grid rule: ntheta for every L >= 0 (LIA), nphi for L <= %d; (b) Legendre recurrences l <= %d, all x; (c) index/sign lemma L <= %d, all FFT outputs and Legendre values; "
-              "(d) round trip L <= %d, all coefficient vectors in [-1,1]^n" % (512 if thorough else 64, 12 if thorough else 8, 10 if thorough else 6, 6 if thorough else 4))
+              "(d) round trip L <= %d, all coefficient vectors in [-1,1]^n" % (512 if thorough else 64, 10 if thorough else 8, 10 if thorough else 6, 6 if thorough else 4))
     ctx.assume("exact arithmetic; scipy.fft.fft/ifft(norm='forward') = the DFT definition; roots_legendre nodes/weights taken from scipy as rationals (checked: sum w = 2, P_n(x_i) ~ 0)")
     ctx.out_of_scope("full pipeline for L > 6; floating-point accumulation error; Parseval (quadratic) beyond the per-degree identities of C08")
     ctx.parallel_sections([("grid", lambda c: part_grid(c, thorough)), ("legendre", lambda c: part_legendre(c, thorough)),
@@ -203,7 +203,7 @@ def _poly_of(term_fn, x, s, q):
 
 def part_legendre(ctx, thorough):
     import sympy
-    LM = 12 if thorough else 8
+    LM = 10 if thorough else 8
     rt, PI, RPI, exact_sqrt = _exact_runtime()
     mh = pyx2py.load(PYX, "chmpy.shape._sht__exact", rt, package="chmpy.shape")
     mh.np = symx.SymNumpy()
